@@ -547,6 +547,57 @@ def inline_rule(cfg, R):
                 R.violation('R3', c, zs.loc(zs.classes[cooked]), '%s.__slots__ lacks %s' % (cooked, sorted(set(keys) - set(sl))))
 
 
+def py_entries(R, rid, P, prefix, delta_gran=60, offset_gran=60):
+    """every rule and era entry of Python tables (checked in, or rendered by the checker) against the TZ line recorded above it"""
+    for arr, entries in P.rules.items():
+        for e in entries:
+            c = '%s:%s[%d]' % (prefix, arr, e.index)
+            R.instance(rid, c, e.loc)
+            try:
+                ln = tzline.parse_rule(e.comment)
+            except tzline.LineError as x:
+                R.violation(rid, c, e.loc, 'recorded line is not a Rule line (%s)' % x)
+                continue
+            if ln['anchor']:
+                want = dict(fromYear=0, toYear=0, inMonth=1, onDayOfWeek=0, onDayOfMonth=1, atSeconds=0, atTimeSuffix='w', deltaSeconds=0, letter=ln['letter'])
+            else:
+                want = dict(fromYear=ln['from_year'], toYear=ln['to_year'], inMonth=ln['month'], onDayOfWeek=ln['dow'], onDayOfMonth=ln['dom'],
+                            atSeconds=tzline.trunc_to(ln['at_seconds'], 60), atTimeSuffix=ln['at_suffix'], deltaSeconds=tzline.trunc_to(ln['save_seconds'], delta_gran),
+                            letter=ln['letter'])
+            bad = ['%s=%r (line says %r)' % (k, e.get(k), v) for k, v in want.items() if e.get(k) != v]
+            if 'ZONE_RULES_' + normalize_name(ln['name']) != arr:
+                bad.append('rule of policy %r stored under %s' % (ln['name'], arr))
+            if bad:
+                R.violation(rid, c, e.loc, '; '.join(bad))
+    for arr, entries in P.eras.items():
+        for e in entries:
+            c = '%s:%s[%d]' % (prefix, arr, e.index)
+            R.instance(rid, c, e.loc)
+            try:
+                ln = tzline.parse_era(e.comment)
+            except tzline.LineError as x:
+                R.violation(rid, c, e.loc, 'recorded line is not an era line (%s)' % x)
+                continue
+            fixed = ln['rules'][1] if isinstance(ln['rules'], tuple) and ln['rules'][0] == 'fixed' else 0
+            want = dict(offsetSeconds=tzline.trunc_to(ln['offset_seconds'], offset_gran), rulesDeltaSeconds=tzline.trunc_to(fixed, delta_gran), format=ln['format'],
+                        untilYear=10000 if ln['until_year'] is None else ln['until_year'], untilMonth=ln['until_month'], untilDay=ln['until_day'],
+                        untilSeconds=tzline.trunc_to(ln['until_seconds'], 60), untilTimeSuffix=ln['until_suffix'])
+            bad = ['%s=%r (line says %r)' % (k, e.get(k), v) for k, v in want.items() if e.get(k) != v]
+            pol = e.get('zonePolicy')
+            if isinstance(ln['rules'], tuple) and ln['rules'][0] == 'policy':
+                wantp = 'ZONE_POLICY_' + normalize_name(ln['rules'][1])
+                if not (isinstance(pol, Ref) and pol.name == wantp):
+                    bad.append('zonePolicy=%r (line says %s)' % (pol, wantp))
+                elif wantp not in P.policies:
+                    bad.append('policy %s is not defined' % wantp)
+            else:
+                wantv = '-' if ln['rules'] == '-' else ':'
+                if pol != wantv:
+                    bad.append('zonePolicy=%r (line says %r)' % (pol, wantv))
+            if bad:
+                R.violation(rid, c, e.loc, '; '.join(bad))
+
+
 def pydb_rule(cfg, R):
     P = tables.PyTables(cfg)
     hdr = P.header
@@ -579,54 +630,7 @@ def pydb_rule(cfg, R):
         R.instance('R6', c, P.policy_map_loc)
         if not isinstance(ref, Ref) or ref.name not in P.policies or P.policies[ref.name]['name'] != name:
             R.violation('R6', c, P.policy_map_loc, 'entry does not reference the ZONE_POLICY_* definition of that name')
-    # entries vs recorded lines
-    for arr, entries in P.rules.items():
-        for e in entries:
-            c = 'zonedbpy:%s[%d]' % (arr, e.index)
-            R.instance('R6', c, e.loc)
-            try:
-                ln = tzline.parse_rule(e.comment)
-            except tzline.LineError as x:
-                R.violation('R6', c, e.loc, 'recorded line is not a Rule line (%s)' % x)
-                continue
-            if ln['anchor']:
-                want = dict(fromYear=0, toYear=0, inMonth=1, onDayOfWeek=0, onDayOfMonth=1, atSeconds=0, atTimeSuffix='w', deltaSeconds=0, letter=ln['letter'])
-            else:
-                want = dict(fromYear=ln['from_year'], toYear=ln['to_year'], inMonth=ln['month'], onDayOfWeek=ln['dow'], onDayOfMonth=ln['dom'],
-                            atSeconds=tzline.trunc_to(ln['at_seconds'], 60), atTimeSuffix=ln['at_suffix'], deltaSeconds=tzline.trunc_to(ln['save_seconds'], 60),
-                            letter=ln['letter'])
-            bad = ['%s=%r (line says %r)' % (k, e.get(k), v) for k, v in want.items() if e.get(k) != v]
-            if 'ZONE_RULES_' + normalize_name(ln['name']) != arr:
-                bad.append('rule of policy %r stored under %s' % (ln['name'], arr))
-            if bad:
-                R.violation('R6', c, e.loc, '; '.join(bad))
-    for arr, entries in P.eras.items():
-        for e in entries:
-            c = 'zonedbpy:%s[%d]' % (arr, e.index)
-            R.instance('R6', c, e.loc)
-            try:
-                ln = tzline.parse_era(e.comment)
-            except tzline.LineError as x:
-                R.violation('R6', c, e.loc, 'recorded line is not an era line (%s)' % x)
-                continue
-            fixed = ln['rules'][1] if isinstance(ln['rules'], tuple) and ln['rules'][0] == 'fixed' else 0
-            want = dict(offsetSeconds=tzline.trunc_to(ln['offset_seconds'], 60), rulesDeltaSeconds=tzline.trunc_to(fixed, 60), format=ln['format'],
-                        untilYear=10000 if ln['until_year'] is None else ln['until_year'], untilMonth=ln['until_month'], untilDay=ln['until_day'],
-                        untilSeconds=tzline.trunc_to(ln['until_seconds'], 60), untilTimeSuffix=ln['until_suffix'])
-            bad = ['%s=%r (line says %r)' % (k, e.get(k), v) for k, v in want.items() if e.get(k) != v]
-            pol = e.get('zonePolicy')
-            if isinstance(ln['rules'], tuple) and ln['rules'][0] == 'policy':
-                wantp = 'ZONE_POLICY_' + normalize_name(ln['rules'][1])
-                if not (isinstance(pol, Ref) and pol.name == wantp):
-                    bad.append('zonePolicy=%r (line says %s)' % (pol, wantp))
-                elif wantp not in P.policies:
-                    bad.append('policy %s is not defined' % wantp)
-            else:
-                wantv = '-' if ln['rules'] == '-' else ':'
-                if pol != wantv:
-                    bad.append('zonePolicy=%r (line says %r)' % (pol, wantv))
-            if bad:
-                R.violation('R6', c, e.loc, '; '.join(bad))
+    py_entries(R, 'R6', P, 'zonedbpy')
     # basic subset of extended (C++ databases)
     B = tables.CxxTables(cfg, 'zonedb')
     X = tables.CxxTables(cfg, 'zonedbx')
